@@ -123,6 +123,7 @@ def _cases(tier, seed):
     for k, c in enumerate(codes):
         if tier == 'thorough' or k % 2 == seed % 2 or 'inf' in c or 'E{' in c:
             yield {'doc': f'Before qzxa {c} after qzxb.\n\n@return: value qzxc {c} end\n', 'docformat': 'epytext', 'processtypes': False}
+            yield {'doc': f'Before qzxa  {c} after qzxb.\n\n@return: value qzxc {c} end\n', 'docformat': 'epytext', 'processtypes': False}
     # the docformat can also be chosen per module
     for f in FORMATS:
         yield {'doc': 'L{x} `y` Args:\n    z: w', 'docformat': 'epytext', 'module_docformat': f, 'processtypes': False}
@@ -147,9 +148,15 @@ def _render(system, names):
         o = system.allobjects.get(n)
         if o is None:
             continue
-        body = flatten(epydoc2stan.format_docstring(o))
-        summ = flatten(epydoc2stan.format_summary(o))
-        toc = epydoc2stan.format_toc(o)
+        if len(o.docstring or '') % 3:
+            # in the order a site is written: the summary for the listings of the parent first, then the page of the object itself
+            summ = flatten(epydoc2stan.format_summary(o))
+            toc = epydoc2stan.format_toc(o)
+            body = flatten(epydoc2stan.format_docstring(o))
+        else:
+            body = flatten(epydoc2stan.format_docstring(o))
+            summ = flatten(epydoc2stan.format_summary(o))
+            toc = epydoc2stan.format_toc(o)
         out[n] = (body, summ, flatten(toc) if toc is not None else None)
     return out
 
@@ -217,7 +224,8 @@ def _check1(case):
     # an inherited docstring is rendered (and falls back, and is reported) in the context of the object that holds it
     b, dd = system.allobjects.get('m.Base.inh'), system.allobjects.get('m.Derived.inh')
     if b is not None and dd is not None and b.docstring:
-        strip = lambda h: re.sub(r'href="[^"]*"', 'href', h)     # noqa  (same-page links are spelled differently on the two pages)
+        # (same-page links are spelled differently on the two pages; headings gain a back-link once a table of contents was asked for)
+        strip = lambda h: re.sub(r'href="[^"]*"', 'href', re.sub(r'<a class="rst-toc-backref"[^>]*>(.*?)</a>', r'\1', h))     # noqa
         if strip(got['m.Derived.inh'][0]) != strip(got['m.Base.inh'][0]):
             fails.append({'observed': f'the inherited docstring renders differently on the overriding method: {got["m.Derived.inh"][0]!r:.160} vs {got["m.Base.inh"][0]!r:.160}',
                           'required': 'the complete original text is still shown', 'class': 'inherited-differs'})
@@ -285,7 +293,49 @@ def _check1(case):
     return fails or None
 
 
+RECOVERED = ['Text.\n\nTitle\n==\n\nmore', '3. three\n4. four', 'Intro.\n\nDup\n===\n\ntext\n\nDup\n===\n\ntext', 'para\n\n====\nnot a title', 'Text\n\n- item\n-- not item',
+             'A\n\nxx\n=\n', 'term\n  def\n::\n', 'b. bee\nc. sea', 'Text\n\n* one\n* two\nno blank line', 'Para\n   indented more\nback', 'x\n\n+---+\n| a |\n+---+\n| b', 'A title\n~~\n\ntext',
+             '#. one\n\n5. five', 'Word\n\n| line block\nnot continued', 'Plain words only.', 'Two\n\nparagraphs.']
+
+
+def _recover_cases(tier, seed):
+    for k, t in enumerate(RECOVERED):
+        yield {'doc': t, 'docformat': 'restructuredtext', 'processtypes': bool(k % 2)}
+    rnd = random.Random(seed)
+    for _ in range(20 if tier == 'quick' else 300):
+        yield {'doc': rnd.choice(['\n\n', '\n']).join(rnd.choice(RECOVERED) for _ in range(rnd.randint(2, 3))), 'docformat': 'restructuredtext', 'processtypes': rnd.random() < 0.5}
+
+
+def _check_recover(case):
+    """markup problems docutils recovers from (down to its INFO level: a title underline taken as text, a duplicate implicit target, a list
+    not starting at one) are reported against the object.  Oracle: docutils itself on the same text, every message it can produce switched on;
+    the texts use neither roles nor directives, which pydoctor configures differently."""
+    import contextlib, io, inspect
+    from docutils.core import publish_doctree
+    from docutils import nodes
+    doc = inspect.cleandoc(case['doc'])
+    with contextlib.redirect_stderr(io.StringIO()):
+        tree = publish_doctree(doc, settings_overrides={'report_level': 1, 'halt_level': 5, 'warning_stream': io.StringIO()})
+    complaints = [m.astext().split('\n')[0][:90] for m in tree.findall(nodes.system_message)]
+    with contextlib.redirect_stdout(io.StringIO()), contextlib.redirect_stderr(io.StringIO()):
+        system = _build(case['doc'], case)
+        _render(system, TARGETS)
+    fails = []
+    for n in ('m.func', 'm.K', 'm.K.meth'):
+        o = system.allobjects.get(n)
+        if o is None:
+            continue
+        reported = o.fullName() in system.parse_errors['docstring']
+        if complaints and not reported:
+            fails.append({'observed': f'{n}: docutils complains ({complaints[0]!r}) but nothing is reported against the object', 'required': 'markup problems that docutils recovers from are reported against the object',
+                          'class': 'recovered-unreported'})
+    return fails or None
+
+
 HARNESS = {
+    'pydoctor/epydoc/markup/restructuredtext.py:_EpydocReader.report': {'cases': _recover_cases, 'check': _check_recover,
+        'bound': '16 reST texts without roles or directives (title underlines, list numbering, duplicate targets, tables, unindents) and 20 (300) random '
+                 'combinations; oracle: docutils on the same text with every message level switched on'},
     f'{E}:parse_docstring': {'cases': _cases, 'check': _check,
         'covers': [f'{E}:safe_to_stan', f'{E}:format_docstring', f'{E}:format_summary', f'{E}:format_toc', f'{E}:reportErrors',
                    f'{E}:format_docstring_fallback', f'{E}:format_summary_fallback', f'{E}:ensure_parsed_docstring', f'{E}:extract_fields',
